@@ -33,7 +33,7 @@ OUTSIDE = ["tabix/bgzip reading; multi-record haplotypes other than adjacent rec
            "catalogued multi-nucleotide substitution"]
 ASSUMPTIONS = ["insertion record: REF = anchor base, ALT = anchor + inserted bases, the "
                "catalogue keys the insertion at the anchor base"]
-RULE = ("cases = (catalogued variant x record form x GT slots x sample index), enumerated "
+RULE = ("cases = (catalogued variant x record form x GT slots x sample index x ALT order), enumerated "
         "by the solver; non-trivial = at least one alternate copy; distinct = distinct case")
 
 
@@ -42,7 +42,8 @@ def BOUNDS(tier):
             "(SNP, deletion, insertion, MNP as one record and as adjacent records), SNP "
             "records whose REF is the catalogued alternative (REF differs from RefSeq), an "
             "unrelated complex record mixed in",
-            "GT slots each in {., 0, 1, 2} (2 = a second, unrelated ALT), 1-2 samples"]
+            "GT slots each in {., 0, 1, 2}; every record lists two ALT alleles, the catalogued "
+            "one and one of unsupported shape, in either order (symbolic); 1-2 samples"]
 
 
 def configs(tier):
@@ -154,7 +155,8 @@ def run_config(cfg):
     fm = z3.Int("form")
     g1, g2 = z3.Int("gt1"), z3.Int("gt2")
     si = z3.Int("sample")
-    base = [vi >= 0, vi < len(muts), fm >= 0, fm < 4, g1 >= -1, g1 <= 2, g2 >= -1, g2 <= 2,
+    ap = z3.Int("altpos")
+    base = [ap >= 0, ap < 2, vi >= 0, vi < len(muts), fm >= 0, fm < 4, g1 >= -1, g1 <= 2, g2 >= -1, g2 <= 2,
             si >= 0, si < 2]
     tag = f"{cfg['gene']}/{cfg['genome']}"
     forms = ["plain", "adjacent", "refmismatch", "complex"]
@@ -168,7 +170,8 @@ def run_config(cfg):
         recs = records_for(gene, m, form)
         if recs is None:
             raise symx.PathAbort()
-        return check_case(gene, m, form, recs, a, b, s)
+        altpos = eng.choose(ap, range(2))
+        return check_case(gene, m, form, recs, a, b, s, altpos)
 
     n = 0
     for dec, pc, (case, probs) in eng.explore(run, base, max_paths=100000):
@@ -206,9 +209,12 @@ def kind_of(m):
     return "snp" if len(op) == 3 else "mnp"
 
 
-def check_case(gene, m, form, recs, a, b, s):
+def check_case(gene, m, form, recs, a, b, s, altpos=0):
+    """altpos: position of the catalogued ALT among the record's two ALT alleles (the other
+    one, '<X>', has a shape the loader does not support); GT index altpos + 1 denotes it."""
     gt = tuple(None if x == -1 else x for x in (a, b))
-    case = {"variant": [m.pos, m.op], "form": form, "gt": list(gt), "sample": s}
+    case = {"variant": [m.pos, m.op], "form": form, "gt": list(gt), "sample": s,
+            "altpos": altpos}
     probs = []
     samples = ["S0", "S1"]
     # the other sample is homozygous reference; an unrelated complex record is mixed in
@@ -216,7 +222,7 @@ def check_case(gene, m, form, recs, a, b, s):
     records = []
     for (p, r, alt) in recs:
         gts = {samples[s]: gt, samples[1 - s]: other}
-        records.append((p, r, [alt, "<X>"], gts))
+        records.append((p, r, [alt, "<X>"] if altpos == 0 else ["<X>", alt], gts))
     far = max(gene.chr_to_ref) - 3
     records.append((far + 1, gene[far:far + 2], [gene[far] + "TT" + gene[far + 1]],
                     {samples[0]: (0, 1), samples[1]: (0, 1)}))
@@ -227,7 +233,7 @@ def check_case(gene, m, form, recs, a, b, s):
     cov = smp.coverage
     live = [x for x in gt if x is not None]
     diploid = len(live) == 2
-    carrier = 0 if form == "refmismatch" else 1  # which GT index denotes the variant
+    carrier = 0 if form == "refmismatch" else 1 + altpos  # GT index denoting the variant
     k = sum(1 for x in live if x == carrier) if diploid else 0
     if form == "complex":
         k = 0  # records of any other shape are ignored
@@ -279,5 +285,6 @@ def replay(o):
     m = Mutation(*c["variant"])
     recs = records_for(gene, m, c["form"])
     gt = [(-1 if x is None else x) for x in c["gt"]]
-    case, probs = check_case(gene, m, c["form"], recs, gt[0], gt[1], c["sample"])
+    case, probs = check_case(gene, m, c["form"], recs, gt[0], gt[1], c["sample"],
+                             c.get("altpos", 0))
     return bool(probs), "; ".join(p[2] for p in probs[:3])
